@@ -116,40 +116,49 @@ pub(crate) fn check_common(r: isize, caller_nonblocking: bool, total_requested: 
 }
 
 // ---------------------------------------------------------------------------------------------- vectored calls
-pub(crate) const NIOV: usize = 2;
+pub(crate) const NIOV: usize = 2; // entries handed to the 2-entry units
+pub(crate) const MAXIOV: usize = 3; // capacity of the model (the 3-entry units use all)
+pub(crate) static mut USED: usize = 0x7207; // entries the caller passes in this unit (2 or 3)
 pub(crate) const VLEN: usize = 2; // bytes per caller iovec (bound)
 pub(crate) static mut BUF0: [u8; VLEN] = [EE; VLEN];
 pub(crate) static mut BUF1: [u8; VLEN] = [0xED; VLEN];
-pub(crate) unsafe fn buf(j: usize) -> &'static mut [u8; VLEN] { if j == 0 { &mut *(&raw mut BUF0) } else { &mut *(&raw mut BUF1) } }
-pub(crate) static mut LENS: [usize; NIOV] = [0x7201, 0x7202];
-pub(crate) static mut CALLER_IOV: [libc::iovec; NIOV] = [libc::iovec { iov_base: 0x7203 as *mut std::ffi::c_void, iov_len: 0x7204 }, libc::iovec { iov_base: 0x7205 as *mut std::ffi::c_void, iov_len: 0x7206 }];
+pub(crate) static mut BUF2: [u8; VLEN] = [0xEC; VLEN];
+pub(crate) unsafe fn buf(j: usize) -> &'static mut [u8; VLEN] { if j == 0 { &mut *(&raw mut BUF0) } else if j == 1 { &mut *(&raw mut BUF1) } else { &mut *(&raw mut BUF2) } }
+pub(crate) static mut LENS: [usize; MAXIOV] = [0x7201, 0x7202, 0x7208];
+pub(crate) static mut CALLER_IOV: [libc::iovec; MAXIOV] = [libc::iovec { iov_base: 0x7203 as *mut std::ffi::c_void, iov_len: 0x7204 }, libc::iovec { iov_base: 0x7205 as *mut std::ffi::c_void, iov_len: 0x7206 }, libc::iovec { iov_base: 0x7209 as *mut std::ffi::c_void, iov_len: 0x720a }];
 
-pub(crate) fn vtotal() -> usize { unsafe { LENS[0] + LENS[1] } }
+pub(crate) fn vtotal() -> usize { unsafe { LENS[0] + LENS[1] + LENS[2] } }
 
-/// caller's iovec array: two buffers of any length 0..=VLEN; for a write they hold the stream, for a read 0xEE
-pub(crate) fn begin_vectored(is_read: bool) -> *const libc::iovec {
+/// caller's iovec array: `used` (2 or 3) buffers of any length 0..=VLEN; for a write they hold the stream, for a read 0xEE
+pub(crate) fn begin_vectored_n(is_read: bool, used: usize) -> *const libc::iovec {
     let l0: usize = kani::any();
     let l1: usize = kani::any();
-    kani::assume(l0 <= VLEN && l1 <= VLEN);
+    let l2: usize = if used == 3 { kani::any() } else { 0 };
+    kani::assume(l0 <= VLEN && l1 <= VLEN && l2 <= VLEN);
     unsafe {
-        LENS = [l0, l1];
+        LENS = [l0, l1, l2];
+        USED = used;
         let mut j = 0;
-        while j < NIOV {
+        while j < MAXIOV {
+            let before = if j == 0 { 0 } else if j == 1 { l0 } else { l0 + l1 };
             let mut b = 0;
-            while b < VLEN { buf(j)[b] = if is_read { EE } else { sb((if j == 0 { 0 } else { l0 }) + b) }; b += 1; }
+            while b < VLEN { buf(j)[b] = if is_read { EE } else { sb(before + b) }; b += 1; }
             CALLER_IOV[j] = libc::iovec { iov_base: buf(j).as_mut_ptr().cast(), iov_len: LENS[j] };
             j += 1;
         }
         CALLER_IOV.as_ptr()
     }
 }
+pub(crate) fn begin_vectored(is_read: bool) -> *const libc::iovec { begin_vectored_n(is_read, NIOV) }
 
 /// absolute stream position of address `a` if [a, a+l) lies inside one caller iovec, else None
 unsafe fn abs_pos(a: usize, l: usize) -> Option<usize> {
     let b0 = buf(0).as_ptr() as usize;
     let b1 = buf(1).as_ptr() as usize;
+    let b2 = buf(2).as_ptr() as usize;
     if a >= b0 && a + l <= b0 + LENS[0] { return Some(a - b0); }
     if a >= b1 && a + l <= b1 + LENS[1] { return Some(LENS[0] + (a - b1)); }
+    if a >= b2 && a + l <= b2 + LENS[2] { return Some(LENS[0] + LENS[1] + (a - b2)); }
     None
 }
 
@@ -159,8 +168,8 @@ pub(crate) unsafe fn kernel_vectored(iov: *const libc::iovec, cnt: usize, is_rea
     let ok = cnt <= 1024 && kani::mem::can_dereference(std::ptr::slice_from_raw_parts(iov, cnt));
     kani::assert(ok, "C17.element_count_matches_the_array_passed");
     kani::assume(ok);
-    kani::assert(cnt <= NIOV, "C17.no_more_elements_than_the_caller_has_unfilled");
-    kani::assume(cnt <= NIOV);
+    kani::assert(cnt <= USED, "C17.no_more_elements_than_the_caller_has_unfilled");
+    kani::assume(cnt <= USED);
     // C17: every non-empty element lies in the caller's not-yet-transferred bytes, in order
     let mut cursor = MOVED;
     let mut room = 0usize;
@@ -207,7 +216,7 @@ pub(crate) fn check_read_buffers() {
     unsafe {
         let mut p = 0;
         let mut j = 0;
-        while j < NIOV {
+        while j < MAXIOV {
             let mut b = 0;
             while b < VLEN {
                 if b < LENS[j] {
